@@ -139,7 +139,8 @@ LEVEL_TEXT = ("Machine-checked Lean 4 theorems about the executable model of Uri
               "form), every port < 65536, every \\w* scheme and every single-line path, all documented spellings are dissected to the "
               "same (host, decimal port) and the pair hands the same arguments to getaddrinfo; the text composed by to_string is "
               "dissected back to exactly (host, port); decimal rendering round-trips; and for EVERY input (URI or pair, any bytes) a "
-              "service that reaches getaddrinfo and that strtoul reads completely is <= 65535 (no silent wrap) - with a proved "
+              "service that reaches getaddrinfo and that strtoul reads completely is <= 65535 (no silent wrap; strict form: the written "
+              "number itself, sign applied and without strtoul's modulo, is in 0..65535) - with a proved "
               "negation for the pre-fix code by the witnesses 99999://localhost, (localhost,+99999), (localhost,' 99999'). Tied to "
               "/repo on every run: literal endpoints from raw bytes in every spelling, service names, and out-of-range / prefixed "
               "numeric services in all three positions run on the real constructors; the intercepted getaddrinfo arguments and the "
